@@ -19,6 +19,7 @@ RULE = ('corpus, then exhaustive value x amount (0..bits+64*LIMBS+1) at widths 0
         '64*LIMBS+1,random,huge; values from the shared classes plus values whose set bits leave through whole-limb moves or the '
         'top-limb mask and values landing on the flag boundary (x*2^s = 2^bits, 2^bits-1.., x = 2^s, 2^s+-1, 2^(s-1)); every integer '
         'operator overload (10 types x 4 forms x 2 directions) and Uint-typed amounts (<64, >=BITS, >=2^64 with small low limb); '
+        'at widths 64 and 128 the harness additionally compares the Uint result with the u64/u128 primitive operation (second oracle, outcome `native-oracle-mismatch`); '
         'non-trivial = width>0, value non-zero and amount non-zero; distinct by case hash')
 TRUSTED = []
 ASSUMPTIONS = ['little-endian 64-bit host (usize = u64), as the crate gates Shl<u64>/Shl<i64> on target_pointer_width = 64']
